@@ -119,6 +119,44 @@ CHECKS = {
                                      "crypto/rand.Int is the mask-and-reject loop transcribed in Gk/Mut.lean (tied by comparing the number of bytes consumed and the result)"],
         "assumptions": ["a panic caused by the injected reader running dry is not counted as a violation"],
     },
+    "C13": {
+        "family": "repo", "level": "proof", "modules": ["Gk.Props.C13"],
+        "components": ["repo", "recover", "next"],
+        "runs": lambda tier: [{"args": ["repo", "-impl", impl, "-profile", "recover", "-n",
+                                        str({"quick": 300, "thorough": 5000, "widen": 2000}[tier]), "-len", "40"]}
+                              for impl in ("ent", "entfile")],
+        "rule": "lifecycle histories on ent/SQLite (in-memory and file-backed) interleaved with RevertDispatched / "
+                "CancelDispatched / DeleteEnded, compared with Spec.Repo after every op (result, full dump, GetNext); "
+                "the reverted tasks' later behaviour is checked by the C01/C12 monitors on the same traces",
+        "trusted_base": COMMON_TB + ["SQLite durability across SIGKILL is NOT covered by this run (see DESIGN: partial)"],
+        "assumptions": REPO_ASSUME,
+        "claim": "PARTIAL: the recovery logic is proved and tied; crash durability (kill points) is not part of this check yet.",
+    },
+    "C15": {
+        "family": "cron", "level": "proof", "modules": ["Gk.Props.C15"], "components": ["cron"],
+        "runs": lambda tier: [{"args": ["cron", "-n", str({"quick": 400, "thorough": 20000, "widen": 4000}[tier]), "-len", "40"]}],
+        "rule": "real CronStore with a virtual clock; 7 Entry objects per history drawn from 12 colliding expressions "
+                "(5/6-field, @every, @hourly, TZ=, JsonExp), three of them sharing identities; Pop/Peek/EditTask/"
+                "start/stop/advance/consume; robfig's occurrence stream of each parsed schedule is the oracle; "
+                "Schedule(), every entry cursor, the timer and NextScheduled compared with Gk.Cron after every op",
+        "trusted_base": COMMON_TB + ["robfig/cron's Schedule.Next is an oracle (t < next t assumed)"],
+        "assumptions": ["schedules without any occurrence are excluded", "task ids (random UUIDs) are ignored"],
+    },
+    "C16": {
+        "family": "cron", "level": "proof", "modules": ["Gk.Props.C16"], "components": ["cron"],
+        "runs": lambda tier: [{"args": ["cron", "-n", str({"quick": 400, "thorough": 20000, "widen": 4000}[tier]), "-len", "40"]}],
+        "rule": "same histories as C15: every edit offers any subset for removal and any list of spare entries incl. "
+                "duplicates of kept / removed / other added identities and entries with undecodable mutator metadata, "
+                "re-offered after rejection; Mon C16 compares Schedule() and all cursors around every rejected edit",
+        "trusted_base": COMMON_TB, "assumptions": ["task ids (random UUIDs) are ignored"],
+    },
+    "C17": {
+        "family": "cron", "level": "proof", "modules": ["Gk.Props.C17"], "components": ["cron"],
+        "runs": lambda tier: [{"args": ["cron", "-n", str({"quick": 400, "thorough": 20000, "widen": 4000}[tier]), "-len", "40"]}],
+        "rule": "same histories as C15; after every op the injected clock (armed deadline, pending fire) and "
+                "NextScheduled are compared with the model and with the head of Schedule() (Mon C17)",
+        "trusted_base": COMMON_TB, "assumptions": HOOK_ASSUME[2:],
+    },
     "C14": {
         "family": "repo", "level": "proof", "modules": ["Gk.Props.C14"],
         "components": ["repo", "heap", "snapshot", "memspec", "next", "find"],
